@@ -34,6 +34,7 @@ struct Interp {
     long nodeDeaths = 0;
     bool strictErrors = false;         // step 'strict': assert even the error points a shortcut may absorb
     std::vector<int> pendingEvents;    // relation slots pushed by 'event' steps (partitioned saturation)
+    std::vector<unsigned> destroyedFids;   // forest identifiers retired in this initialisation
     // combinations excluded by construction because of a recorded known finding (interp_reach.cc)
     bool excludedCombo(const char* family, const std::string& combo, const std::string& alg,
                        const FSpec& relSpec, int setKind) const;
@@ -81,6 +82,7 @@ MEDDLY::binary_factory* binaryFactory(const std::string& op);
 MEDDLY::unary_factory* unaryFactory(const std::string& op);
 bool userMap(const std::string& op, const Val& x, char resRange, Val& y);
 bool doReachFamily(Interp& I, const Step& s, bool& handled);    // interp_reach.cc
+bool doLifeFamily(Interp& I, const Step& s, bool& handled);     // interp_life.cc
 
 } // namespace mv
 #endif
